@@ -124,12 +124,12 @@ Definition name_step (rec : ty -> option tag) (name : string) (acc : option tag)
   if is_named name f then Some (field_tag f) else acc1.
 
 (* FieldsFromStruct(t)[name], without any table and without any iteration order *)
-Fixpoint ffs_name (fuel : nat) (t : ty) (name : string) {struct fuel} : option tag :=
+Fixpoint ffs_old_name (fuel : nat) (t : ty) (name : string) {struct fuel} : option tag :=
   match dereference t with
   | TStruct sn =>
       match fuel with
       | O => None
-      | S n => fold_left (name_step (fun ft => ffs_name n ft name) name) (fields_of te (TStruct sn)) None
+      | S n => fold_left (name_step (fun ft => ffs_old_name n ft name) name) (fields_of te (TStruct sn)) None
       end
   | _ => None
   end.
@@ -137,17 +137,19 @@ Fixpoint ffs_name (fuel : nat) (t : ty) (name : string) {struct fuel} : option t
 Lemma fold_ffs_none : forall rec fs, fold_left (ffs_step perm rec) fs None = None.
 Proof. induction fs; cbn; auto. Qed.
 
-Lemma ffs_fold_spec : forall n,
-  (forall t tb, ffs te perm n t = Some tb -> NoDup (map fst tb) /\ forall name, tget name tb = ffs_name n t name) ->
-  forall fs acc tb, fold_left (ffs_step perm (ffs te perm n)) fs (Some acc) = Some tb -> NoDup (map fst acc) ->
+(* the per-name effect of the first loop of FieldsFromStruct, for any function R computing the
+   tables of the embedded fields and any per-name description r of R *)
+Lemma ffs_fold_spec : forall (R : ty -> option table) (r : ty -> string -> option tag),
+  (forall t tb, R t = Some tb -> NoDup (map fst tb) /\ forall name, tget name tb = r t name) ->
+  forall fs acc tb, fold_left (ffs_step perm R) fs (Some acc) = Some tb -> NoDup (map fst acc) ->
   NoDup (map fst tb) /\
-  forall name, tget name tb = fold_left (name_step (fun ft => ffs_name n ft name) name) fs (tget name acc).
+  forall name, tget name tb = fold_left (name_step (fun ft => r ft name) name) fs (tget name acc).
 Proof.
-  intros n IH. induction fs as [|f r IHfs]; intros acc tb H ND; cbn [fold_left] in *.
+  intros R r IH. induction fs as [|f rr IHfs]; intros acc tb H ND; cbn [fold_left] in *.
   - inversion H; subst. auto.
   - unfold ffs_step at 2 in H.
     destruct (fd_anon f) eqn:An.
-    + destruct (ffs te perm n (fd_ty f)) as [sub|] eqn:Es.
+    + destruct (R (fd_ty f)) as [sub|] eqn:Es.
       * destruct (IH _ _ Es) as [NDs Gs].
         apply IHfs in H.
         -- destruct H as [ND' G]. split; auto. intros name. rewrite G. f_equal.
@@ -166,15 +168,68 @@ Proof.
       * apply tset_nodup. auto.
 Qed.
 
+(* FieldsFromStruct(t)[name] since fix b9d2c0f: a name is collected by the first loop (own field,
+   or entry of an embedded field's table) and then resolved by Go's rule (res_tag) *)
+Fixpoint ffs_name (fuel : nat) (t : ty) (name : string) {struct fuel} : option tag :=
+  match dereference t with
+  | TStruct sn =>
+      match fuel with
+      | O => None
+      | S n =>
+          match fold_left (name_step (fun ft => ffs_name n ft name) name) (fields_of te (TStruct sn)) None with
+          | Some _ => res_tag te sn name
+          | None => None
+          end
+      end
+  | _ => None
+  end.
+
+Lemma resolve_entries_keys : forall sn tb x, In x (map fst (resolve_entries te sn tb)) -> In x (map fst tb).
+Proof.
+  induction tb as [|[k v] r IH]; cbn; intros x H; auto.
+  rewrite map_app in H. apply in_app_or in H. destruct H as [H|H]; auto.
+  destruct (res_tag te sn k); cbn in H; tauto.
+Qed.
+
+Lemma resolve_entries_nodup : forall sn tb, NoDup (map fst tb) -> NoDup (map fst (resolve_entries te sn tb)).
+Proof.
+  induction tb as [|[k v] r IH]; cbn; intros ND; auto.
+  inversion ND; subst. destruct (res_tag te sn k); cbn; auto.
+  constructor; auto. intro H. apply resolve_entries_keys in H. auto.
+Qed.
+
+Lemma resolve_entries_get : forall sn tb name, NoDup (map fst tb) ->
+  tget name (resolve_entries te sn tb) = match tget name tb with Some _ => res_tag te sn name | None => None end.
+Proof.
+  induction tb as [|[k v] r IH]; intros name ND; cbn [resolve_entries flat_map fst]; auto.
+  inversion ND; subst. fold (resolve_entries te sn r).
+  change (tget name ((k, v) :: r)) with (if String.eqb k name then Some v else tget name r).
+  destruct (String.eqb k name) eqn:E.
+  - apply eqb_eq' in E. subst k.
+    assert (tget name r = None) as Hr by (apply assoc_none; auto).
+    destruct (res_tag te sn name) as [tg|] eqn:Rt; cbn [app].
+    + unfold tget. cbn. rewrite String.eqb_refl. reflexivity.
+    + rewrite IH, Hr; auto.
+  - destruct (res_tag te sn k); cbn [app]; [unfold tget; cbn; rewrite E; fold (tget name (resolve_entries te sn r))|]; apply IH; auto.
+Qed.
+
 (* FieldsFromStruct is a function of the declarations alone: whatever order the embedded tables
-   are iterated in, the entry of every name is ffs_name *)
+   and the collected names are iterated in, the entry of every name is ffs_name *)
 Lemma ffs_spec : forall n t tb, ffs te perm n t = Some tb ->
   NoDup (map fst tb) /\ forall name, tget name tb = ffs_name n t name.
 Proof.
-  induction n as [|n IH]; intros t tb H; cbn in *.
+  induction n as [|n IH]; intros t tb H; cbn [ffs ffs_name] in *.
   - destruct (dereference t); inversion H; subst; split; try constructor; intros; reflexivity.
   - destruct (dereference t) eqn:D; try (inversion H; subst; split; [constructor|intros; reflexivity]).
-    apply (ffs_fold_spec n IH) in H; [|constructor]. exact H.
+    destruct (fold_left (ffs_step perm (ffs te perm n)) (fields_of te (TStruct name)) (Some [])) as [tb0|] eqn:F; [|discriminate].
+    inversion H; subst tb. clear H.
+    apply (ffs_fold_spec (ffs te perm n) (ffs_name n) IH) in F; [|constructor]. destruct F as [ND0 G0].
+    assert (NoDup (map fst (perm tb0))) as NDp.
+    { eapply Permutation_NoDup; [|exact ND0]. apply Permutation_map. apply Permutation_sym. apply Hperm. }
+    split; [apply resolve_entries_nodup; exact NDp|].
+    intros nm. rewrite resolve_entries_get by exact NDp.
+    unfold tget at 1. rewrite (assoc_perm _ _ (Hperm tb0)) by exact NDp. fold (tget nm tb0).
+    rewrite G0. reflexivity.
 Qed.
 
 (* ------------------------------------------------------------------ declarations *)
@@ -394,13 +449,13 @@ Proof. intros name fs H f Hin. apply (find_none _ _ H f Hin). Qed.
 Definition resolves_at (sn name : string) (d : nat) (p : list nat) (f : fielddef) : Prop :=
   at_depth te d sn name = [(p, f)] /\ forall d', d' < d -> at_depth te d' sn name = [].
 
-Lemma ffs_name_S : forall n t sn name, dereference t = TStruct sn ->
-  ffs_name (S n) t name = fold_left (name_step (fun ft => ffs_name n ft name) name) (fields_of te (TStruct sn)) None.
-Proof. intros. cbn [ffs_name]. rewrite H. reflexivity. Qed.
+Lemma ffs_old_name_S : forall n t sn name, dereference t = TStruct sn ->
+  ffs_old_name (S n) t name = fold_left (name_step (fun ft => ffs_old_name n ft name) name) (fields_of te (TStruct sn)) None.
+Proof. intros. cbn [ffs_old_name]. rewrite H. reflexivity. Qed.
 
-Lemma ffs_name_nonstruct : forall n t name, (forall m, dereference t <> TStruct m) -> ffs_name n t name = None.
+Lemma ffs_old_name_nonstruct : forall n t name, (forall m, dereference t <> TStruct m) -> ffs_old_name n t name = None.
 Proof.
-  intros n t name H. destruct n; cbn [ffs_name]; destruct (dereference t) eqn:D; auto; exfalso; eapply H; eauto.
+  intros n t name H. destruct n; cbn [ffs_old_name]; destruct (dereference t) eqn:D; auto; exfalso; eapply H; eauto.
 Qed.
 
 Lemma fuel_ok_S : forall n t sn, dereference t = TStruct sn ->
@@ -417,12 +472,12 @@ Proof.
   specialize (H f Hin). rewrite An in H. exact H.
 Qed.
 
-Lemma ffs_name_none_depth : forall n t sn name, fuel_ok te n t = true -> dereference t = TStruct sn ->
-  ffs_name n t name = None -> forall d, at_depth te d sn name = [].
+Lemma ffs_old_name_none_depth : forall n t sn name, fuel_ok te n t = true -> dereference t = TStruct sn ->
+  ffs_old_name n t name = None -> forall d, at_depth te d sn name = [].
 Proof.
   induction n as [|n IH]; intros t sn name Hf D H d.
   - rewrite (fuel_ok_0 t sn D) in Hf. discriminate.
-  - rewrite (ffs_name_S n t sn name D) in H. apply fold_none_inv in H. destruct H as [_ Hs].
+  - rewrite (ffs_old_name_S n t sn name D) in H. apply fold_none_inv in H. destruct H as [_ Hs].
     destruct d.
     + rewrite at_depth_0. apply own_matches_none. intros f Hin. apply Hs. exact Hin.
     + rewrite at_depth_S. apply emb_collect_nil. intros f m Hin E.
@@ -434,12 +489,12 @@ Qed.
 
 Lemma silent_depth : forall n t sn name l, dereference t = TStruct sn -> fuel_ok te (S n) t = true ->
   (forall f, In f l -> In f (fields_of te (TStruct sn))) ->
-  silent (fun ft => ffs_name n ft name) name l ->
+  silent (fun ft => ffs_old_name n ft name) name l ->
   forall f m d, In f l -> emb_target f = Some m -> at_depth te d m name = [].
 Proof.
   intros n t sn name l D Hf Hsub Hs f m d Hin E.
   apply emb_target_some in E. destruct E as [An Dm].
-  apply (ffs_name_none_depth n (fd_ty f) m name); auto.
+  apply (ffs_old_name_none_depth n (fd_ty f) m name); auto.
   - apply (fuel_ok_field n t sn f D Hf (Hsub f Hin) An).
   - apply (Hs f Hin); auto.
 Qed.
@@ -475,14 +530,14 @@ Proof.
   rewrite (own_matches_none name l1), (own_matches_none name l2); auto.
 Qed.
 
-Lemma ffs_name_sound : forall n t sn name tg, fuel_ok te n t = true -> dereference t = TStruct sn ->
-  ffs_name n t name = Some tg -> tg_amb tg = false ->
+Lemma ffs_old_name_sound : forall n t sn name tg, fuel_ok te n t = true -> dereference t = TStruct sn ->
+  ffs_old_name n t name = Some tg -> tg_amb tg = false ->
   exists d p f, resolves_at sn name d p f /\ tg = field_tag f /\ d < n.
 Proof.
   induction n as [|n IH]; intros t sn name tg Hf D H Na.
   - rewrite (fuel_ok_0 t sn D) in Hf. discriminate.
-  - rewrite (ffs_name_S n t sn name D) in H.
-    set (rec := fun ft => ffs_name n ft name) in *.
+  - rewrite (ffs_old_name_S n t sn name D) in H.
+    set (rec := fun ft => ffs_old_name n ft name) in *.
     destruct (find (is_named name) (fields_of te (TStruct sn))) as [f0|] eqn:F.
     + destruct (find_split _ _ _ F) as (l1 & l2 & E & H1 & H0).
       assert (forall f, In f l2 -> is_named name f = false) as H2.
@@ -504,7 +559,7 @@ Proof.
         assert (In e (fields_of te (TStruct sn))) as Hine by (rewrite E; apply in_or_app; cbn; auto).
         assert (exists m, dereference (fd_ty e) = TStruct m) as [m Dm].
         { destruct (dereference (fd_ty e)) eqn:De; eauto;
-            unfold rec in R; rewrite ffs_name_nonstruct in R; try discriminate; intros m0 Hm; rewrite De in Hm; discriminate. }
+            unfold rec in R; rewrite ffs_old_name_nonstruct in R; try discriminate; intros m0 Hm; rewrite De in Hm; discriminate. }
         pose proof (emb_target_of_deref e m An (fields_shape sn e Hine) Dm) as Em.
         pose proof (fuel_ok_field n t sn e D Hf Hine An) as Hfe.
         destruct (IH (fd_ty e) m name tg Hfe Dm R Na) as (d & p & f & [Ra Rb] & Etg & Hd).
@@ -662,6 +717,87 @@ Lemma populate_structish : forall keys k T sn, T = TStruct sn \/ T = TPtr (TStru
 Proof. intros keys k T sn [->| ->]; eexists; reflexivity. Qed.
 
 (* ---- identifier position, struct environments ---- *)
+(* ---- the fixed FieldsFromStruct (b9d2c0f) against the selector rule ---- *)
+Lemma ffs_name_S : forall n t sn name, dereference t = TStruct sn ->
+  ffs_name (S n) t name =
+  match fold_left (name_step (fun ft => ffs_name n ft name) name) (fields_of te (TStruct sn)) None with
+  | Some _ => res_tag te sn name
+  | None => None
+  end.
+Proof. intros. cbn [ffs_name]. rewrite H. reflexivity. Qed.
+
+Lemma res_tag_field : forall sn name tg, res_tag te sn name = Some tg -> tg_amb tg = false ->
+  exists d p f, resolves_at sn name d p f /\ tg = field_tag f /\ fd_exp f = true /\ d < fuel0 te.
+Proof.
+  intros sn name tg H A. unfold res_tag, go_resolve_field in H.
+  destruct (search_depth te sn name 0 (S (List.length te))) as [| |p t [|]|mt] eqn:G;
+    try (inversion H; subst tg; discriminate).
+  inversion H; subst tg. apply search_inv in G. destruct G as (d & f & Ha & -> & Ex & _ & Hlt & Hmin).
+  exists d, p, f. split; [split; [exact Ha|intros; apply Hmin; lia]|]. split; [reflexivity|]. split; [auto|unfold fuel0; lia].
+Qed.
+
+(* soundness of a table entry, now without any carve-out: a non-ambiguous entry IS Go's field,
+   and that field is exported *)
+Lemma ffs_name_sound : forall n t sn name tg, dereference t = TStruct sn ->
+  ffs_name n t name = Some tg -> tg_amb tg = false ->
+  exists d p f, resolves_at sn name d p f /\ tg = field_tag f /\ fd_exp f = true /\ d < fuel0 te.
+Proof.
+  intros n t sn name tg D H A. destruct n; cbn [ffs_name] in H; rewrite D in H; [discriminate|].
+  destruct (fold_left _ _ None); [|discriminate]. eapply res_tag_field; eauto.
+Qed.
+
+Lemma ffs_name_amb : forall n t name tg, ffs_name n t name = Some tg -> tg_amb tg = true -> tg = amb_tag.
+Proof.
+  intros n t name tg H A. destruct n; cbn [ffs_name] in H; destruct (dereference t); try discriminate.
+  destruct (fold_left _ _ None); [|discriminate]. unfold res_tag in H.
+  destruct (go_resolve_field te name0 name) as [| |p t' [|]|mt]; inversion H; subst; auto; discriminate.
+Qed.
+
+Lemma emb_collect_length : forall (sub : string -> list (list nat * fielddef)) fs i j e m,
+  nth_error fs j = Some e -> emb_target e = Some m -> List.length (sub m) <= List.length (emb_collect sub i fs).
+Proof.
+  induction fs as [|g r IH]; intros i j e m Hn Em; [destruct j; discriminate|].
+  cbn [emb_collect]. rewrite app_length. destruct j as [|j]; cbn in Hn.
+  - inversion Hn; subst g. rewrite Em, map_length. lia.
+  - pose proof (IH (S i) j e m Hn Em). lia.
+Qed.
+
+(* completeness at full strength: whatever Go resolves to an exported field is in the table *)
+Lemma ffs_name_complete : forall n t sn name d p f, fuel_ok te n t = true -> dereference t = TStruct sn ->
+  resolves_at sn name d p f -> fd_exp f = true -> d < fuel0 te ->
+  ffs_name n t name = Some (field_tag f).
+Proof.
+  induction n as [|n IH]; intros t sn name d p f Hf D R Ex Hd.
+  - rewrite (fuel_ok_0 t sn D) in Hf. discriminate.
+  - rewrite (ffs_name_S n t sn name D).
+    destruct (fold_left (name_step (fun ft => ffs_name n ft name) name) (fields_of te (TStruct sn)) None) eqn:Fo.
+    + unfold res_tag, go_resolve_field. rewrite (search_found sn name d p f R) by (unfold fuel0 in Hd; lia).
+      rewrite Ex. reflexivity.
+    + exfalso. apply fold_none_inv in Fo. destruct Fo as [_ Hs]. destruct R as [Ra Rb]. destruct d as [|d].
+      * rewrite at_depth_0, own_matches_none in Ra; [discriminate|]. intros g Hin. apply Hs. exact Hin.
+      * pose proof Ra as Ra'. rewrite at_depth_S in Ra'.
+        assert (In (p, f) (emb_collect (fun m => at_depth te d m name) 0 (fields_of te (TStruct sn)))) as Hin
+          by (rewrite Ra'; cbn; auto).
+        apply emb_collect_in in Hin. destruct Hin as (j & e & m & p' & _ & Hn & Em & Hin).
+        pose proof (emb_target_some e m Em) as [An Dm].
+        pose proof (nth_error_In _ _ Hn) as Hine.
+        assert (at_depth te d m name = [(p', f)]) as Am.
+        { pose proof (emb_collect_length (fun m => at_depth te d m name) _ 0 j e m Hn Em) as L.
+          rewrite Ra' in L. cbn in L.
+          destruct (at_depth te d m name) as [|x [|y r]]; cbn in L, Hin; try lia; try tauto.
+          destruct Hin as [->|[]]. reflexivity. }
+        assert (forall d', d' < d -> at_depth te d' m name = []) as Bm.
+        { intros d' Hd'. pose proof (Rb (S d') ltac:(lia)) as Z. rewrite at_depth_S in Z.
+          pose proof (emb_collect_length (fun m => at_depth te d' m name) _ 0 j e m Hn Em) as L.
+          rewrite Z in L. cbn in L. destruct (at_depth te d' m name); [reflexivity|cbn in L; lia]. }
+        assert (ffs_name n (fd_ty e) name = Some (field_tag f)) as Hc.
+        { apply (IH (fd_ty e) m name d p' f); auto.
+          - apply (fuel_ok_field n t sn e D Hf Hine An).
+          - split; auto.
+          - lia. }
+        destruct (Hs e Hine) as [_ Hnone]. rewrite (Hnone An) in Hc. discriminate.
+Qed.
+
 Lemma struct_table_get : forall T sn tb name, T = TStruct sn \/ T = TPtr (TStruct sn) ->
   create_types_table te perm (EStruct T) = Some tb ->
   tget name tb = match method_by_name te T name with
@@ -679,23 +815,17 @@ Qed.
 
 Theorem ident_resolves_struct : forall T sn tb name tau keys k,
   T = TStruct sn \/ T = TPtr (TStruct sn) ->
-  fuel_ok te (fuel0 te) (TStruct sn) = true ->
   create_types_table te perm (EStruct T) = Some tb ->
   check_ident tb name = LFound tau ->
   method_by_name te T name = None ->
-  step_unexported sn name = false ->
   fuel0 te <= k ->
   exists v, fetch te (populate te keys k T) name = Ok v /\ conforms v tau.
 Proof.
-  intros T sn tb name tau keys k HT Hf Hc Hi Hm Hu Hk.
+  intros T sn tb name tau keys k HT Hc Hi Hm Hk.
   unfold check_ident in Hi. rewrite (struct_table_get T sn tb name HT Hc), Hm in Hi.
   destruct (ffs_name (fuel0 te) (TStruct sn) name) as [tg|] eqn:F; [|discriminate].
   destruct (tg_amb tg) eqn:A; [discriminate|]. inversion Hi; subst tau.
-  destruct (ffs_name_sound _ _ sn name tg Hf eq_refl F A) as (d & p & f & R & -> & Hd).
-  assert (fd_exp f = true) as Ex.
-  { unfold step_unexported, go_resolve_field in Hu.
-    rewrite (search_found sn name d p f R) in Hu by (unfold fuel0 in Hd; lia).
-    destruct (fd_exp f); [reflexivity|discriminate]. }
+  destruct (ffs_name_sound (fuel0 te) (TStruct sn) sn name tg eq_refl F A) as (d & p & f & R & -> & Ex & Hd).
   destruct k as [|k]; [unfold fuel0 in Hk; lia|].
   destruct (populate_structish keys k T sn HT) as [b ->].
   rewrite (fetch_struct keys sn name d p f b k R Ex Hd) by lia.
@@ -741,22 +871,22 @@ Proof.
   intros n t name H. destruct n; cbn [occurs]; destruct (dereference t) eqn:D; auto; exfalso; eapply H; eauto.
 Qed.
 
-Lemma occurs_false_ffs : forall n t name, occurs te n t name = false -> ffs_name n t name = None.
+Lemma occurs_false_ffs : forall n t name, occurs te n t name = false -> ffs_old_name n t name = None.
 Proof.
-  induction n as [|n IH]; intros t name H; destruct (struct_dec t) as [[sn D]|D]; try (apply ffs_name_nonstruct; exact D).
-  - cbn [ffs_name]. rewrite D. reflexivity.
-  - rewrite (ffs_name_S n t sn name D). rewrite (occurs_S n t sn name D) in H.
+  induction n as [|n IH]; intros t name H; destruct (struct_dec t) as [[sn D]|D]; try (apply ffs_old_name_nonstruct; exact D).
+  - cbn [ffs_old_name]. rewrite D. reflexivity.
+  - rewrite (ffs_old_name_S n t sn name D). rewrite (occurs_S n t sn name D) in H.
     apply fold_silent. intros f Hin. pose proof (existsb_false _ _ H f Hin) as Hf. cbn in Hf.
     apply orb_false_iff in Hf. destruct Hf as [H1 H2]. split; auto.
     intros An. rewrite An in H2. cbn in H2. apply IH. exact H2.
 Qed.
 
-Lemma occurs_true_ffs : forall n t name, occurs te n t name = true -> ffs_name n t name <> None.
+Lemma occurs_true_ffs : forall n t name, occurs te n t name = true -> ffs_old_name n t name <> None.
 Proof.
   induction n as [|n IH]; intros t name H; destruct (struct_dec t) as [[sn D]|D];
     try (rewrite occurs_nonstruct in H by exact D; discriminate).
   - cbn [occurs] in H. rewrite D in H. discriminate.
-  - rewrite (ffs_name_S n t sn name D). rewrite (occurs_S n t sn name D) in H.
+  - rewrite (ffs_old_name_S n t sn name D). rewrite (occurs_S n t sn name D) in H.
     intros E. apply fold_none_inv in E. destruct E as [_ Hs].
     apply existsb_exists in H. destruct H as (f & Hin & Hf).
     destruct (Hs f Hin) as [H1 H2]. rewrite H1 in Hf. cbn in Hf.
@@ -765,7 +895,7 @@ Qed.
 
 Lemma silent_of_occurs : forall n name l,
   (forall f, In f l -> is_named name f = false /\ emb_with te n name f = false) ->
-  silent (fun ft => ffs_name n ft name) name l.
+  silent (fun ft => ffs_old_name n ft name) name l.
 Proof.
   intros n name l H f Hin. destruct (H f Hin) as [H1 H2]. split; auto.
   intros An. unfold emb_with in H2. rewrite An in H2. cbn in H2. apply occurs_false_ffs. exact H2.
@@ -773,7 +903,7 @@ Qed.
 
 Lemma occurs_false_depth : forall n t sn name, fuel_ok te n t = true -> dereference t = TStruct sn ->
   occurs te n t name = false -> forall d, at_depth te d sn name = [].
-Proof. intros. eapply ffs_name_none_depth; eauto. apply occurs_false_ffs. auto. Qed.
+Proof. intros. eapply ffs_old_name_none_depth; eauto. apply occurs_false_ffs. auto. Qed.
 
 Lemma field_type_S : forall n t sn name, under (dereference t) = TStruct sn ->
   field_type te (S n) t name =
@@ -860,7 +990,7 @@ Lemma single_provider : forall n t sn name l1 e l2, dereference t = TStruct sn -
   (forall f, In f (l1 ++ e :: l2) -> is_named name f = false) ->
   exists m, dereference (fd_ty e) = TStruct m /\ emb_target e = Some m /\ fd_anon e = true /\
             fuel_ok te n (fd_ty e) = true /\ occurs te n (fd_ty e) name = true /\
-            silent (fun ft => ffs_name n ft name) name l1 /\ silent (fun ft => ffs_name n ft name) name l2 /\
+            silent (fun ft => ffs_old_name n ft name) name l1 /\ silent (fun ft => ffs_old_name n ft name) name l2 /\
             at_depth te 0 sn name = [] /\
             forall d, at_depth te (S d) sn name = map (fun pf => (List.length l1 :: fst pf, snd pf)) (at_depth te d m name).
 Proof.
@@ -869,9 +999,9 @@ Proof.
   assert (In e (fields_of te (TStruct sn))) as Hine by (rewrite E; apply in_or_app; cbn; auto).
   destruct (struct_dec (fd_ty e)) as [[m Dm]|Dm]; [|rewrite occurs_nonstruct in Oc by exact Dm; discriminate].
   pose proof (emb_target_of_deref e m An (fields_shape sn e Hine) Dm) as Em.
-  assert (silent (fun ft => ffs_name n ft name) name l1) as S1.
+  assert (silent (fun ft => ffs_old_name n ft name) name l1) as S1.
   { apply silent_of_occurs. intros f Hin. split; [apply Hn; apply in_or_app; auto|apply (filter_nil_all _ _ F1 f Hin)]. }
-  assert (silent (fun ft => ffs_name n ft name) name l2) as S2.
+  assert (silent (fun ft => ffs_old_name n ft name) name l2) as S2.
   { apply silent_of_occurs. intros f Hin. split; [apply Hn; apply in_or_app; cbn; auto|apply (filter_nil_all _ _ F2 f Hin)]. }
   assert (forall f m' d, In f (l1 ++ l2) -> emb_target f = Some m' -> at_depth te d m' name = []) as Hs.
   { intros g m' d' Hin Eg. apply in_app_or in Hin. destruct Hin as [Hin|Hin].
@@ -1041,20 +1171,17 @@ Qed.
 (* ------------------------------------------------------------------ struct environments *)
 Lemma ident_step_struct : forall T sn tb name tau keys k,
   T = TStruct sn \/ T = TPtr (TStruct sn) ->
-  fuel_ok te (fuel0 te) (TStruct sn) = true ->
   create_types_table te perm (EStruct T) = Some tb ->
   check_ident tb name = LFound tau ->
   method_by_name te T name = None ->
-  step_unexported sn name = false ->
   fuel0 te <= k ->
   exists k', k <= k' + fuel0 te /\ fetch te (populate te keys k T) name = Ok (populate te keys k' tau).
 Proof.
-  intros T sn tb name tau keys k HT Hf Hc Hi Hm Hu Hk.
+  intros T sn tb name tau keys k HT Hc Hi Hm Hk.
   unfold check_ident in Hi. rewrite (struct_table_get T sn tb name HT Hc), Hm in Hi.
   destruct (ffs_name (fuel0 te) (TStruct sn) name) as [tg|] eqn:F; [|discriminate].
   destruct (tg_amb tg) eqn:A; [discriminate|]. inversion Hi; subst tau.
-  destruct (ffs_name_sound _ _ sn name tg Hf eq_refl F A) as (d & p & f & R & -> & Hd).
-  pose proof (exported_of_step sn name d p f R Hd Hu) as Ex.
+  destruct (ffs_name_sound (fuel0 te) (TStruct sn) sn name tg eq_refl F A) as (d & p & f & R & -> & Ex & Hd).
   destruct k as [|k]; [unfold fuel0 in Hk; lia|].
   destruct (populate_structish keys k T sn HT) as [b ->].
   rewrite (fetch_struct keys sn name d p f b k R Ex Hd) by lia.
@@ -1064,21 +1191,19 @@ Qed.
 (* identifier and member-path positions *)
 Theorem path_resolves_struct : forall T sn tb n0 ns tau keys k,
   T = TStruct sn \/ T = TPtr (TStruct sn) ->
-  fuel_ok te (fuel0 te) (TStruct sn) = true ->
   create_types_table te perm (EStruct T) = Some tb ->
   check_access te tb (APath n0 ns) = LFound (CVal tau) ->
   method_by_name te T n0 = None ->
-  step_unexported sn n0 = false ->
   (forall t0, check_ident tb n0 = LFound t0 -> path_clean keys t0 ns = true) ->
   S (List.length ns) * fuel0 te <= k ->
   exists v, run_access te false (populate te keys k T) (APath n0 ns) = Ok v /\ conforms v tau.
 Proof.
-  intros T sn tb n0 ns tau keys k HT Hf Hc Ha Hm Hu Hp Hk.
+  intros T sn tb n0 ns tau keys k HT Hc Ha Hm Hp Hk.
   cbn [check_access] in Ha.
   destruct (check_ident tb n0) as [t0| |] eqn:Hi; cbn in Ha; try discriminate.
   destruct (check_path te t0 ns) as [t| |] eqn:Hcp; cbn in Ha; try discriminate. inversion Ha; subst t.
   rewrite Nat.mul_succ_l in Hk.
-  destruct (ident_step_struct T sn tb n0 t0 keys k HT Hf Hc Hi Hm Hu) as (k1 & Hk1 & Hfe); [lia|].
+  destruct (ident_step_struct T sn tb n0 t0 keys k HT Hc Hi Hm) as (k1 & Hk1 & Hfe); [lia|].
   destruct (path_resolves keys ns t0 tau k1 Hcp (Hp t0 eq_refl)) as (k' & _ & Hr); [lia|].
   exists (populate te keys k' tau). split; [|apply dyn_populate].
   cbn [run_access fetch_env]. rewrite Hfe. cbn. exact Hr.
@@ -1102,12 +1227,12 @@ Proof.
   destruct acc; auto.
 Qed.
 
-Lemma ffs_name_amb : forall n t name tg, ffs_name n t name = Some tg -> tg_amb tg = true -> tg = amb_tag.
+Lemma ffs_old_name_amb : forall n t name tg, ffs_old_name n t name = Some tg -> tg_amb tg = true -> tg = amb_tag.
 Proof.
   induction n as [|n IH]; intros t name tg H A; destruct (struct_dec t) as [[sn D]|D];
-    try (rewrite ffs_name_nonstruct in H by exact D; discriminate).
-  - cbn [ffs_name] in H. rewrite D in H. discriminate.
-  - rewrite (ffs_name_S n t sn name D) in H.
+    try (rewrite ffs_old_name_nonstruct in H by exact D; discriminate).
+  - cbn [ffs_old_name] in H. rewrite D in H. discriminate.
+  - rewrite (ffs_old_name_S n t sn name D) in H.
     revert tg H A.
     apply (fold_step_invariant (fun o => forall tg, o = Some tg -> tg_amb tg = true -> tg = amb_tag)).
     + intros t0 tg H A. eapply IH; eauto.
@@ -1148,14 +1273,12 @@ Proof. reflexivity. Qed.
 (* function position *)
 Theorem func_resolves_struct : forall T sn tb n c keys k,
   T = TStruct sn \/ T = TPtr (TStruct sn) ->
-  fuel_ok te (fuel0 te) (TStruct sn) = true ->
   create_types_table te perm (EStruct T) = Some tb ->
   check_access te tb (AFunc n) = LFound c ->
-  step_unexported sn n = false ->
   fuel0 te <= k ->
   exists v, run_access te false (populate te keys k T) (AFunc n) = Ok v /\ cres_conforms v c.
 Proof.
-  intros T sn tb n c keys k HT Hf Hc Ha Hu Hk.
+  intros T sn tb n c keys k HT Hc Ha Hk.
   cbn [check_access run_access] in *.
   rewrite (struct_table_get T sn tb n HT Hc) in Ha.
   destruct (method_by_name te T n) as [mt|] eqn:Hm.
@@ -1167,8 +1290,7 @@ Proof.
   - destruct (ffs_name (fuel0 te) (TStruct sn) n) as [tg|] eqn:F; [|discriminate].
     destruct (tg_amb tg) eqn:A.
     { rewrite (ffs_name_amb _ _ _ _ F A) in Ha. discriminate. }
-    destruct (ffs_name_sound _ _ sn n tg Hf eq_refl F A) as (d & p & f & R & -> & Hd).
-    pose proof (exported_of_step sn n d p f R Hd Hu) as Ex.
+    destruct (ffs_name_sound (fuel0 te) (TStruct sn) sn n tg eq_refl F A) as (d & p & f & R & -> & Ex & Hd).
     unfold check_call in Ha. cbn [tg_ty tg_method field_tag] in Ha.
     destruct (is_func_type (fd_ty f)) as [fn|] eqn:Fn; [|discriminate].
     destruct (call_type fn); [|discriminate]. inversion Ha; subst c.
@@ -1221,11 +1343,9 @@ Qed.
 (* method position on a struct environment: prefix path, then the method / function-valued member *)
 Theorem method_access_resolves_struct : forall T sn tb n0 ns m c keys k,
   T = TStruct sn \/ T = TPtr (TStruct sn) ->
-  fuel_ok te (fuel0 te) (TStruct sn) = true ->
   create_types_table te perm (EStruct T) = Some tb ->
   check_access te tb (AMethod n0 ns m) = LFound c ->
   method_by_name te T n0 = None ->
-  step_unexported sn n0 = false ->
   (forall t0, check_ident tb n0 = LFound t0 -> path_clean keys t0 ns = true) ->
   (forall t0 t, check_ident tb n0 = LFound t0 -> check_path te t0 ns = LFound t ->
      method_by_name te t m <> None
@@ -1234,12 +1354,12 @@ Theorem method_access_resolves_struct : forall T sn tb n0 ns m c keys k,
   S (S (List.length ns)) * fuel0 te <= k ->
   exists v, run_access te false (populate te keys k T) (AMethod n0 ns m) = Ok v /\ cres_conforms v c.
 Proof.
-  intros T sn tb n0 ns m c keys k HT Hf Hc Ha Hm Hu Hp Hmeth Hk.
+  intros T sn tb n0 ns m c keys k HT Hc Ha Hm Hp Hmeth Hk.
   cbn [check_access] in Ha.
   destruct (check_ident tb n0) as [t0| |] eqn:Hi; cbn [lbind] in Ha; try discriminate.
   destruct (check_path te t0 ns) as [t| |] eqn:Hcp; cbn [lbind] in Ha; try discriminate.
   rewrite !Nat.mul_succ_l in Hk.
-  destruct (ident_step_struct T sn tb n0 t0 keys k HT Hf Hc Hi Hm Hu) as (k1 & Hk1 & Hfe); [lia|].
+  destruct (ident_step_struct T sn tb n0 t0 keys k HT Hc Hi Hm) as (k1 & Hk1 & Hfe); [lia|].
   destruct (path_resolves keys ns t0 t k1 Hcp (Hp t0 eq_refl)) as (k' & Hk' & Hr); [lia|].
   assert (fuel0 te <= k') as Hk0 by lia.
   destruct (method_resolves keys k' t m c Ha) as (v & Hv & Hcv).
@@ -1269,14 +1389,14 @@ Proof.
   - rewrite (H f) by auto. apply IH; auto.
 Qed.
 
-Lemma ffs_name_complete : forall n t sn name, fuel_ok te n t = true -> dereference t = TStruct sn ->
+Lemma ffs_old_name_complete : forall n t sn name, fuel_ok te n t = true -> dereference t = TStruct sn ->
   dup_class te n t name = DClean -> (exists d, at_depth te d sn name <> []) ->
-  exists d p f, resolves_at sn name d p f /\ ffs_name n t name = Some (field_tag f) /\ d < n.
+  exists d p f, resolves_at sn name d p f /\ ffs_old_name n t name = Some (field_tag f) /\ d < n.
 Proof.
   induction n as [|n IH]; intros t sn name Hf D Hc [d0 Hd0].
   - rewrite (fuel_ok_0 t sn D) in Hf. discriminate.
-  - rewrite (dup_class_S n t sn name D) in Hc. rewrite (ffs_name_S n t sn name D).
-    set (rec := fun ft => ffs_name n ft name) in *.
+  - rewrite (dup_class_S n t sn name D) in Hc. rewrite (ffs_old_name_S n t sn name D).
+    set (rec := fun ft => ffs_old_name n ft name) in *.
     destruct (find (is_named name) (fields_of te (TStruct sn))) as [f0|] eqn:F.
     + destruct (find_split _ _ _ F) as (l1 & l2 & E & H1 & H0).
       assert (forall f, In f l2 -> is_named name f = false) as H2.
@@ -1309,12 +1429,13 @@ Proof.
            rewrite An. unfold rec at 2. rewrite Ef. cbn [merge1]. apply fold_silent. exact S2.
 Qed.
 
+(* completeness at full strength (since fix b9d2c0f) *)
 Theorem struct_complete : forall T sn tb name,
   T = TStruct sn \/ T = TPtr (TStruct sn) ->
   fuel_ok te (fuel0 te) (TStruct sn) = true ->
   create_types_table te perm (EStruct T) = Some tb ->
   match go_resolve te T name with
-  | RField p tau true => dup_class te (fuel0 te) (TStruct sn) name = DClean -> check_ident tb name = LFound tau
+  | RField p tau true => check_ident tb name = LFound tau
   | RMethod mt => tget name tb = Some (method_tag mt)
   | _ => True
   end.
@@ -1326,13 +1447,12 @@ Proof.
           = go_resolve_field te sn name) as -> by (destruct HT; subst; reflexivity).
   destruct (go_resolve_field te sn name) as [| |p tau [|]|mt'] eqn:G; auto;
     [|exfalso; unfold go_resolve_field in G; eapply search_not_method; eauto].
-  intros Hd. unfold go_resolve_field in G. apply search_inv in G.
+  unfold go_resolve_field in G. apply search_inv in G.
   destruct G as (d & f & A & -> & Ex & _ & Hlt & Hmin).
   assert (resolves_at sn name d p f) as R by (split; [exact A|intros; apply Hmin; lia]).
-  destruct (ffs_name_complete _ _ sn name Hf eq_refl Hd) as (d' & p' & f' & R' & Ef & _).
-  { exists d. rewrite A. discriminate. }
-  destruct (resolves_unique _ _ _ _ _ _ _ _ R R') as [_ <-].
-  unfold check_ident. rewrite Hg, Ef. reflexivity.
+  unfold check_ident. rewrite Hg.
+  rewrite (ffs_name_complete (fuel0 te) (TStruct sn) sn name d p f Hf eq_refl R (eq_sym Ex)) by (unfold fuel0; lia).
+  reflexivity.
 Qed.
 
 (* ------------------------------------------------------------------ map environments *)
@@ -1495,7 +1615,11 @@ Proof.
   induction n as [|n IH]; intros t; destruct (struct_dec t) as [[sn D]|D].
   - cbn [ffs fuel_ok]. rewrite D. split; [intros [tb H]; discriminate|discriminate].
   - cbn [ffs fuel_ok]. destruct (dereference t) eqn:E; try (split; eauto; fail). exfalso. eapply D; eauto.
-  - cbn [ffs fuel_ok]. rewrite D. apply ffs_fold_defined. exact IH.
+  - cbn [ffs fuel_ok]. rewrite D.
+    pose proof (ffs_fold_defined n IH (fields_of te (TStruct sn)) []) as Hd.
+    destruct (fold_left (ffs_step perm (ffs te perm n)) (fields_of te (TStruct sn)) (Some [])) as [t0|] eqn:F.
+    + split; [intros _; apply Hd; eauto|intros _; eauto].
+    + split; [intros [tb H]; discriminate|intros H; apply Hd in H; destruct H as [tb H]; pose proof (eq_trans (eq_sym F) H) as Z; discriminate Z].
   - cbn [ffs fuel_ok]. destruct (dereference t) eqn:E; try (split; eauto; fail). exfalso. eapply D; eauto.
 Qed.
 
@@ -1585,21 +1709,13 @@ Proof.
 Qed.
 
 (* ================================================================== carve-outs, statements *)
-(* K_shadow_order / K_depth: findings C16-shadow-order, C16-depth (conf.FieldsFromStruct);
-   K_unexported: C16-unexported; K_method_ident: C16-method-ident;
+(* K_unexported_step: finding C16-unexported, what is left of it after fix b9d2c0f (member access
+   through checker.fieldType / methodType; top-level names are resolved by the fixed table);
+   K_method_ident: C16-method-ident;
    K_member_multi: C16-member-ambiguous and C16-member-dfs (checker fieldType / methodType);
-   K_promoted_only: C16-member-ambiguous for methods; K_funcmap: C16-funcmap (vm.FetchFn). *)
-Definition K_shadow_order (te : tenv) (T : ty) (name : string) : bool :=
-  match structish T with
-  | Some sn => dupclass_eqb (dup_class te (fuel0 te) (TStruct sn) name) DShadowOrder
-  | None => false
-  end.
-Definition K_depth (te : tenv) (T : ty) (name : string) : bool :=
-  match structish T with
-  | Some sn => dupclass_eqb (dup_class te (fuel0 te) (TStruct sn) name) DMulti
-  | None => false
-  end.
-Definition K_unexported (te : tenv) (T : ty) (name : string) : bool := K_unexported_step te T name.
+   K_promoted_only: C16-member-ambiguous for methods; K_funcmap: C16-funcmap (vm.FetchFn).
+   The carve-outs of C16-shadow-order and C16-depth are gone with the fix: see
+   struct_complete_fields (full strength) and the historical examples about ffs_old below. *)
 Definition K_method_ident (te : tenv) (T : ty) (name : string) : bool :=
   match method_by_name te T name with Some _ => true | None => false end.
 Definition K_member_multi (te : tenv) (t : ty) (name : string) : bool := K_multi_step te t name.
@@ -1625,7 +1741,7 @@ Definition path_conclusion (te : tenv) (T : ty) (n0 : string) (ns : list string)
 Definition accepted_resolves_path_full_statement : Prop :=
   forall te perm, valid_perm perm -> wf_tenv te = true ->
   forall T sn tb n0 ns tau keys k,
-  structish T = Some sn -> fuel_ok te (fuel0 te) (TStruct sn) = true ->
+  structish T = Some sn ->
   create_types_table te perm (EStruct T) = Some tb ->
   check_access te tb (APath n0 ns) = LFound (CVal tau) ->
   (forall t0, check_ident tb n0 = LFound t0 -> path_scope te keys t0 ns = true) ->
@@ -1634,57 +1750,64 @@ Definition accepted_resolves_path_full_statement : Prop :=
 
 Theorem accepted_resolves_path : forall te perm, valid_perm perm -> wf_tenv te = true ->
   forall T sn tb n0 ns tau keys k,
-  structish T = Some sn -> fuel_ok te (fuel0 te) (TStruct sn) = true ->
+  structish T = Some sn ->
   create_types_table te perm (EStruct T) = Some tb ->
   check_access te tb (APath n0 ns) = LFound (CVal tau) ->
   (forall t0, check_ident tb n0 = LFound t0 -> path_scope te keys t0 ns = true) ->
   S (List.length ns) * fuel0 te <= k ->
   K_method_ident te T n0 = false ->
-  K_unexported te T n0 = false ->
   (forall t0, check_ident tb n0 = LFound t0 ->
      path_K te (K_unexported_step te) t0 ns = false /\ path_K te (K_member_multi te) t0 ns = false) ->
   path_conclusion te T n0 ns tau keys k.
 Proof.
-  intros te perm Hp Hwf T sn tb n0 ns tau keys k St Hf Hc Ha Hs Hk Km Ku Kp.
+  intros te perm Hp Hwf T sn tb n0 ns tau keys k St Hc Ha Hs Hk Km Kp.
   apply (path_resolves_struct te perm Hp Hwf T sn tb n0 ns tau keys k); auto.
   - apply structish_cases. exact St.
   - unfold K_method_ident in Km. destruct (method_by_name te T n0); [discriminate|reflexivity].
-  - unfold K_unexported, K_unexported_step in Ku. rewrite St in Ku. exact Ku.
   - intros t0 E. destruct (Kp t0 E). apply path_clean_split; auto.
 Qed.
 
-(* ---------- function position, struct environments ---------- *)
+(* bare identifiers of a struct environment: no carve-out but the method names *)
+Corollary accepted_resolves_ident : forall te perm, valid_perm perm -> wf_tenv te = true ->
+  forall T sn tb n0 tau keys k,
+  structish T = Some sn ->
+  create_types_table te perm (EStruct T) = Some tb ->
+  check_access te tb (APath n0 []) = LFound (CVal tau) ->
+  fuel0 te <= k ->
+  K_method_ident te T n0 = false ->
+  path_conclusion te T n0 [] tau keys k.
+Proof.
+  intros te perm Hp Hwf T sn tb n0 tau keys k St Hc Ha Hk Km.
+  apply (accepted_resolves_path te perm Hp Hwf T sn tb n0 [] tau keys k); auto.
+  cbn [List.length]. lia.
+Qed.
+
+(* ---------- function position, struct environments: holds at full strength since b9d2c0f ---------- *)
 Definition accepted_resolves_func_full_statement : Prop :=
   forall te perm, valid_perm perm -> wf_tenv te = true ->
   forall T sn tb n c keys k,
-  structish T = Some sn -> fuel_ok te (fuel0 te) (TStruct sn) = true ->
+  structish T = Some sn ->
   create_types_table te perm (EStruct T) = Some tb ->
   check_access te tb (AFunc n) = LFound c -> fuel0 te <= k ->
   exists v, run_access te false (populate te keys k T) (AFunc n) = Ok v /\ cres_conforms v c.
 
-Theorem accepted_resolves_func : forall te perm, valid_perm perm -> wf_tenv te = true ->
-  forall T sn tb n c keys k,
-  structish T = Some sn -> fuel_ok te (fuel0 te) (TStruct sn) = true ->
-  create_types_table te perm (EStruct T) = Some tb ->
-  check_access te tb (AFunc n) = LFound c -> fuel0 te <= k ->
-  K_unexported te T n = false ->
-  exists v, run_access te false (populate te keys k T) (AFunc n) = Ok v /\ cres_conforms v c.
+Theorem accepted_resolves_func : accepted_resolves_func_full_statement.
 Proof.
-  intros te perm Hp Hwf T sn tb n c keys k St Hf Hc Ha Hk Ku.
+  intros te perm Hp Hwf T sn tb n c keys k St Hc Ha Hk.
   apply (func_resolves_struct te perm Hp Hwf T sn tb n c keys k); auto.
-  - apply structish_cases. exact St.
-  - unfold K_unexported, K_unexported_step in Ku. rewrite St in Ku. exact Ku.
+  apply structish_cases. exact St.
 Qed.
 
 (* ---------- method position, struct environments ---------- *)
 Definition accepted_resolves_method_full_statement : Prop :=
   forall te perm, valid_perm perm -> wf_tenv te = true ->
   forall T sn tb n0 ns m c keys k,
-  structish T = Some sn -> fuel_ok te (fuel0 te) (TStruct sn) = true ->
+  structish T = Some sn ->
   create_types_table te perm (EStruct T) = Some tb ->
   check_access te tb (AMethod n0 ns m) = LFound c ->
   (forall t0, check_ident tb n0 = LFound t0 -> path_scope te keys t0 ns = true) ->
-  (forall t0 t, check_ident tb n0 = LFound t0 -> check_path te t0 ns = LFound t -> structish t <> None) ->
+  (forall t0 t, check_ident tb n0 = LFound t0 -> check_path te t0 ns = LFound t ->
+     exists sn', structish t = Some sn' /\ fuel_ok te (fuel0 te) (TStruct sn') = true) ->
   S (S (List.length ns)) * fuel0 te <= k ->
   exists v, run_access te false (populate te keys k T) (AMethod n0 ns m) = Ok v /\ cres_conforms v c.
 
@@ -1693,13 +1816,12 @@ Definition accepted_resolves_method_full_statement : Prop :=
    EMBEDDED field is itself called m: decidable side condition, kept as a hypothesis) *)
 Theorem accepted_resolves_method : forall te perm, valid_perm perm -> wf_tenv te = true ->
   forall T sn tb n0 ns m c keys k,
-  structish T = Some sn -> fuel_ok te (fuel0 te) (TStruct sn) = true ->
+  structish T = Some sn ->
   create_types_table te perm (EStruct T) = Some tb ->
   check_access te tb (AMethod n0 ns m) = LFound c ->
   (forall t0, check_ident tb n0 = LFound t0 -> path_scope te keys t0 ns = true) ->
   S (S (List.length ns)) * fuel0 te <= k ->
   K_method_ident te T n0 = false ->
-  K_unexported te T n0 = false ->
   (forall t0, check_ident tb n0 = LFound t0 ->
      path_K te (K_unexported_step te) t0 ns = false /\ path_K te (K_member_multi te) t0 ns = false) ->
   (forall t0 t, check_ident tb n0 = LFound t0 -> check_path te t0 ns = LFound t ->
@@ -1710,11 +1832,10 @@ Theorem accepted_resolves_method : forall te perm, valid_perm perm -> wf_tenv te
                       /\ scope_step te keys t m = true /\ K_unexported_step te t m = false /\ K_member_multi te t m = false)) ->
   exists v, run_access te false (populate te keys k T) (AMethod n0 ns m) = Ok v /\ cres_conforms v c.
 Proof.
-  intros te perm Hp Hwf T sn tb n0 ns m c keys k St Hf Hc Ha Hs Hk Km Ku Kp Kmeth.
+  intros te perm Hp Hwf T sn tb n0 ns m c keys k St Hc Ha Hs Hk Km Kp Kmeth.
   apply (method_access_resolves_struct te perm Hp Hwf T sn tb n0 ns m c keys k); auto.
   - apply structish_cases. exact St.
   - unfold K_method_ident in Km. destruct (method_by_name te T n0); [discriminate|reflexivity].
-  - unfold K_unexported, K_unexported_step in Ku. rewrite St in Ku. exact Ku.
   - intros t0 E. destruct (Kp t0 E). apply path_clean_split; auto.
   - intros t0 t E1 E2. destruct (Kmeth t0 t E1 E2) as [_ Hb].
     destruct (method_by_name te t m) eqn:Em; [left; discriminate|].
@@ -1761,7 +1882,7 @@ Proof.
   intros t0 E. destruct (Kp t0 E). apply path_clean_split; auto.
 Qed.
 
-(* ---------- completeness, struct environments ---------- *)
+(* ---------- completeness, struct environments: full strength since b9d2c0f ---------- *)
 Definition struct_complete_full_statement : Prop :=
   forall te perm, valid_perm perm -> wf_tenv te = true ->
   forall T sn tb name p tau,
@@ -1770,19 +1891,11 @@ Definition struct_complete_full_statement : Prop :=
   go_resolve te T name = RField p tau true ->
   check_ident tb name = LFound tau.
 
-Theorem struct_complete_fields : forall te perm, valid_perm perm -> wf_tenv te = true ->
-  forall T sn tb name p tau,
-  structish T = Some sn -> fuel_ok te (fuel0 te) (TStruct sn) = true ->
-  create_types_table te perm (EStruct T) = Some tb ->
-  go_resolve te T name = RField p tau true ->
-  K_shadow_order te T name = false -> K_depth te T name = false ->
-  check_ident tb name = LFound tau.
+Theorem struct_complete_fields : struct_complete_full_statement.
 Proof.
-  intros te perm Hp Hwf T sn tb name p tau St Hf Hc Hg K1 K2.
+  intros te perm Hp Hwf T sn tb name p tau St Hf Hc Hg.
   pose proof (struct_complete te perm Hp Hwf T sn tb name (structish_cases T sn St) Hf Hc) as H.
-  rewrite Hg in H. apply H.
-  unfold K_shadow_order, K_depth in *. rewrite St in *.
-  destruct (dup_class te (fuel0 te) (TStruct sn) name); auto; discriminate.
+  rewrite Hg in H. exact H.
 Qed.
 
 Theorem struct_complete_methods : forall te perm, valid_perm perm -> wf_tenv te = true ->
@@ -1799,6 +1912,27 @@ Proof.
   rewrite Hg in H. split; auto.
   intros fn ret F1 F2. cbn [check_access]. rewrite H. unfold check_call. cbn [tg_ty tg_method method_tag].
   rewrite F1, F2. reflexivity.
+Qed.
+
+(* the identifier is accepted EXACTLY when Go resolves it to an exported field (no method of that name) *)
+Theorem ident_accepted_iff_go : forall te perm, valid_perm perm -> wf_tenv te = true ->
+  forall T sn tb name tau,
+  structish T = Some sn -> fuel_ok te (fuel0 te) (TStruct sn) = true ->
+  create_types_table te perm (EStruct T) = Some tb ->
+  method_by_name te T name = None ->
+  (check_ident tb name = LFound tau <-> exists p, go_resolve te T name = RField p tau true).
+Proof.
+  intros te perm Hp Hwf T sn tb name tau St Hf Hc Hm. pose proof (structish_cases T sn St) as HT. split.
+  - intros Hi. unfold check_ident in Hi. rewrite (struct_table_get te perm Hp Hwf T sn tb name HT Hc), Hm in Hi.
+    destruct (ffs_name te (fuel0 te) (TStruct sn) name) as [tg|] eqn:F; [|discriminate].
+    destruct (tg_amb tg) eqn:A; [discriminate|]. inversion Hi; subst tau.
+    destruct (ffs_name_sound te (fuel0 te) (TStruct sn) sn name tg eq_refl F A) as (d & p & f & R & -> & Ex & Hd).
+    exists p. unfold go_resolve. rewrite Hm.
+    assert (match T with TStruct n => go_resolve_field te n name | TPtr (TStruct n) => go_resolve_field te n name | _ => RNone end
+            = go_resolve_field te sn name) as -> by (destruct HT; subst; reflexivity).
+    unfold go_resolve_field. rewrite (search_found te sn name d p f R) by (unfold fuel0 in Hd; lia).
+    rewrite Ex. reflexivity.
+  - intros [p Hg]. apply (struct_complete_fields te perm Hp Hwf T sn tb name p tau St Hf Hc Hg).
 Qed.
 
 (* ================================================================== witnesses (replayed on the real code) *)
@@ -1838,6 +1972,9 @@ Definition te : tenv := [
 
 Definition tbl (env : envty) : table :=
   match create_types_table te perm_id env with Some tb => tb | None => [] end.
+(* the table of a struct before fix b9d2c0f *)
+Definition tbl_old (sn : string) : table :=
+  match ffs_old te perm_id (fuel0 te) (TStruct sn) with Some tb => tb | None => [] end.
 Definition K : nat := 4 * fuel0 te.
 End Wit.
 
@@ -1846,13 +1983,15 @@ Proof. vm_compute. reflexivity. Qed.
 
 Ltac wit_scope := let t0 := fresh in let E := fresh in intros t0 E; vm_compute in E; inversion E; subst; vm_compute; reflexivity.
 
-(* C16-unexported: `lower` on struct{ lower int; ... } is accepted and cannot be fetched *)
+Definition HolderT : ty := TStruct "Holder".
+
+(* C16-unexported, what remains: Fs.lower - checker.fieldType accepts the unexported field of the member *)
 Theorem accepted_resolves_refuted_unexported :
-  K_unexported Wit.te (TStruct "WithUnexp") "lower" = true /\ ~ accepted_resolves_path_full_statement.
+  K_unexported_step Wit.te (TStruct "WithUnexp") "lower" = true /\ ~ accepted_resolves_path_full_statement.
 Proof.
   split; [vm_compute; reflexivity|]. intros H.
-  destruct (H Wit.te perm_id perm_id_valid wit_wf (TStruct "WithUnexp") "WithUnexp" (Wit.tbl (EStruct (TStruct "WithUnexp")))
-              "lower" [] Wit.tint ["k"] Wit.K) as [v [Hv _]];
+  destruct (H Wit.te perm_id perm_id_valid wit_wf HolderT "Holder" (Wit.tbl (EStruct HolderT))
+              "Fs" ["lower"] Wit.tint ["k"] Wit.K) as [v [Hv _]];
     try (vm_compute; reflexivity); try wit_scope.
   - vm_compute. repeat constructor.
   - vm_compute in Hv. discriminate.
@@ -1875,7 +2014,7 @@ Theorem accepted_resolves_refuted_member_ambiguous :
   K_member_multi Wit.te (TStruct "SameDepth") "X" = true /\ ~ accepted_resolves_path_full_statement.
 Proof.
   split; [vm_compute; reflexivity|]. intros H.
-  destruct (H Wit.te perm_id perm_id_valid wit_wf (TStruct "Holder") "Holder" (Wit.tbl (EStruct (TStruct "Holder")))
+  destruct (H Wit.te perm_id perm_id_valid wit_wf HolderT "Holder" (Wit.tbl (EStruct HolderT))
               "S" ["X"] Wit.tint ["k"] Wit.K) as [v [Hv _]];
     try (vm_compute; reflexivity); try wit_scope.
   - vm_compute. repeat constructor.
@@ -1887,34 +2026,37 @@ Theorem accepted_resolves_refuted_member_dfs :
   K_member_multi Wit.te (TStruct "DiffDepthRev") "X" = true /\ ~ accepted_resolves_path_full_statement.
 Proof.
   split; [vm_compute; reflexivity|]. intros H.
-  destruct (H Wit.te perm_id perm_id_valid wit_wf (TStruct "Holder") "Holder" (Wit.tbl (EStruct (TStruct "Holder")))
+  destruct (H Wit.te perm_id perm_id_valid wit_wf HolderT "Holder" (Wit.tbl (EStruct HolderT))
               "D" ["X"] TString ["k"] Wit.K) as [v [Hv Hc]];
     try (vm_compute; reflexivity); try wit_scope.
   - vm_compute. repeat constructor.
   - vm_compute in Hv. inversion Hv; subst v. destruct Hc as [Hc|Hc]; vm_compute in Hc; discriminate.
 Qed.
 
-(* C16-unexported in function position: fn() on an unexported function-valued field *)
-Theorem accepted_resolves_func_refuted_unexported :
-  K_unexported Wit.te (TStruct "WithUnexp") "fn" = true /\ ~ accepted_resolves_func_full_statement.
-Proof.
-  split; [vm_compute; reflexivity|]. intros H.
-  destruct (H Wit.te perm_id perm_id_valid wit_wf (TStruct "WithUnexp") "WithUnexp" (Wit.tbl (EStruct (TStruct "WithUnexp")))
-              "fn" (CCall Wit.fn0 false Wit.tint) ["k"] Wit.K) as [v [Hv _]];
-    try (vm_compute; reflexivity).
-  - vm_compute. repeat constructor.
-  - vm_compute in Hv. discriminate.
-Qed.
+Ltac wit_base := let t0 := fresh in let t := fresh in let E1 := fresh in let E2 := fresh in
+  intros t0 t E1 E2; vm_compute in E1; inversion E1; subst; vm_compute in E2; inversion E2; subst;
+  eexists; split; vm_compute; reflexivity.
 
 (* C16-member-ambiguous for methods: A.Foo() with A AmbM{ M1; M2 }, both with a method Foo *)
 Theorem accepted_resolves_method_refuted_promoted :
   K_promoted_only Wit.te (TStruct "AmbM") "Foo" = true /\ ~ accepted_resolves_method_full_statement.
 Proof.
   split; [vm_compute; reflexivity|]. intros H.
-  destruct (H Wit.te perm_id perm_id_valid wit_wf (TStruct "Holder") "Holder" (Wit.tbl (EStruct (TStruct "Holder")))
+  destruct (H Wit.te perm_id perm_id_valid wit_wf HolderT "Holder" (Wit.tbl (EStruct HolderT))
               "A" [] "Foo" (CCall (TFunc [TStruct "M1"] false [Wit.tint]) true Wit.tint) ["k"] Wit.K) as [v [Hv _]];
-    try (vm_compute; reflexivity); try wit_scope.
-  - intros t0 t E1 E2. vm_compute in E1. inversion E1; subst. vm_compute in E2. inversion E2; subst. vm_compute. discriminate.
+    try (vm_compute; reflexivity); try wit_scope; try wit_base.
+  - vm_compute. repeat constructor.
+  - vm_compute in Hv. discriminate.
+Qed.
+
+(* C16-unexported, what remains in call position: Fs.fn() on an unexported function-valued field of a member *)
+Theorem accepted_resolves_method_refuted_unexported :
+  K_unexported_step Wit.te (TStruct "WithUnexp") "fn" = true /\ ~ accepted_resolves_method_full_statement.
+Proof.
+  split; [vm_compute; reflexivity|]. intros H.
+  destruct (H Wit.te perm_id perm_id_valid wit_wf HolderT "Holder" (Wit.tbl (EStruct HolderT))
+              "Fs" [] "fn" (CCall Wit.fn0 false Wit.tint) ["k"] Wit.K) as [v [Hv _]];
+    try (vm_compute; reflexivity); try wit_scope; try wit_base.
   - vm_compute. repeat constructor.
   - vm_compute in Hv. discriminate.
 Qed.
@@ -1931,22 +2073,30 @@ Proof.
   - vm_compute in Hv. discriminate.
 Qed.
 
-(* C16-shadow-order: struct{ X string; Inner }: Go resolves X to the outer field, the table says ambiguous *)
-Theorem struct_complete_refuted_shadow_order :
-  K_shadow_order Wit.te (TStruct "ShadowBefore") "X" = true /\ ~ struct_complete_full_statement.
-Proof.
-  split; [vm_compute; reflexivity|]. intros H.
-  pose proof (H Wit.te perm_id perm_id_valid wit_wf (TStruct "ShadowBefore") "ShadowBefore"
-                (Wit.tbl (EStruct (TStruct "ShadowBefore"))) "X" [0] TString eq_refl) as H1.
-  vm_compute in H1. specialize (H1 eq_refl eq_refl eq_refl). discriminate.
-Qed.
+(* ---------- historical: the two findings repaired by b9d2c0f, shown on the OLD algorithm ffs_old ---------- *)
+(* C16-shadow-order (fixed): struct{ X string; Inner } - the old table said ambiguous, Go and the
+   new table say the outer string field *)
+Example old_table_shadow_order :
+  dup_class Wit.te (fuel0 Wit.te) (TStruct "ShadowBefore") "X" = DShadowOrder /\
+  tget "X" (Wit.tbl_old "ShadowBefore") = Some amb_tag /\
+  go_resolve Wit.te (TStruct "ShadowBefore") "X" = RField [0] TString true /\
+  check_ident (Wit.tbl (EStruct (TStruct "ShadowBefore"))) "X" = LFound TString.
+Proof. vm_compute. repeat split. Qed.
 
-(* C16-depth: struct{ Inner; Deep }: Go resolves X to Inner.X, the table says ambiguous *)
-Theorem struct_complete_refuted_depth :
-  K_depth Wit.te (TStruct "DiffDepth") "X" = true /\ ~ struct_complete_full_statement.
-Proof.
-  split; [vm_compute; reflexivity|]. intros H.
-  pose proof (H Wit.te perm_id perm_id_valid wit_wf (TStruct "DiffDepth") "DiffDepth"
-                (Wit.tbl (EStruct (TStruct "DiffDepth"))) "X" [0; 0] Wit.tint eq_refl) as H1.
-  vm_compute in H1. specialize (H1 eq_refl eq_refl eq_refl). discriminate.
-Qed.
+(* C16-depth (fixed): struct{ Inner; Deep } - the old table said ambiguous, Go and the new table say Inner.X *)
+Example old_table_depth :
+  dup_class Wit.te (fuel0 Wit.te) (TStruct "DiffDepth") "X" = DMulti /\
+  tget "X" (Wit.tbl_old "DiffDepth") = Some amb_tag /\
+  go_resolve Wit.te (TStruct "DiffDepth") "X" = RField [0; 0] Wit.tint true /\
+  check_ident (Wit.tbl (EStruct (TStruct "DiffDepth"))) "X" = LFound Wit.tint.
+Proof. vm_compute. repeat split. Qed.
+
+(* C16-unexported, the repaired part: the old table held `lower` and `fn`; the new one does not, so the
+   identifier and the call are rejected by the checker instead of failing in the VM *)
+Example old_table_unexported :
+  tget "lower" (Wit.tbl_old "WithUnexp") = Some (mkTag Wit.tint false false) /\
+  tget "lower" (Wit.tbl (EStruct (TStruct "WithUnexp"))) = None /\
+  check_access Wit.te (Wit.tbl (EStruct (TStruct "WithUnexp"))) (AFunc "fn") = LMissing /\
+  tget "U" (Wit.tbl (EStruct (TStruct "WithUnexp"))) = Some (mkTag Wit.tint false false) /\
+  tget "unexp" (Wit.tbl (EStruct (TStruct "WithUnexp"))) = None.
+Proof. vm_compute. repeat split. Qed.
